@@ -120,6 +120,11 @@ def run(case):
         raise Discard("no free parameter")
     backend = spec["minimizer"]
     kafe2 = fs.k("kafe2")
+    if ref.t in ("xy", "indexed") and spec.get("sources"):
+        V0 = ref.total_cov(dict(spec["start"], **fixed_vals))
+        ev0 = np.linalg.eigvalsh(V0)
+        if not np.all(np.isfinite(ev0)) or ev0.min() <= 0 or ev0.max() / ev0.min() > 1e8:
+            raise Discard("total covariance matrix singular / cond > 1e8 (ill-posed; e.g. a single fully correlated source)")
     with guard(f"build[{spec['type']}]"):
         fit = fs.build(spec)
     try:
